@@ -1,4 +1,5 @@
 import Proofs.Lemmas.ConvGen
+import Proofs.Lemmas.ConvReg
 import Generated.C17GoKinds
 /-!
 # C17 — values cross the Go boundary unchanged in both directions
@@ -20,8 +21,8 @@ the sized-integer clauses were `form := .cast`, so `gen_exact` was false (`Conve
 `C17_pinned_generic_counterexample`).
 -/
 namespace C17
-open Model.Conv Spec.Conv Proofs.Conv
-open Generated.C17GoKinds (table tableMethod outTable outTableMethod gen shapeChanged)
+open Model.Conv Spec.Conv Proofs.Conv Proofs.ConvReg
+open Generated.C17GoKinds (table tableMethod outTable outTableMethod gen shapeChanged memos)
 
 /-! ### obligations on the regenerated facts -/
 
@@ -46,6 +47,13 @@ theorem gen_exact : genExact gen = true := by decide
 
 /-- the translator found every syntactic shape it expects -/
 theorem shape_unchanged : shapeChanged = [] := by decide
+
+/-- every table of `runtime/reflect_*.go` that is written while calls are served (package-level
+variables of package runtime, map / slice / sync.Map fields of the wrapper structs) is keyed by what
+its entries depend on: (Go type, method) — or the Go type alone for data of a registered type. A
+table keyed by the bare method name, a single slot, or something the translator cannot classify
+fails here. -/
+theorem memos_sound : memosSound memos = true := by decide
 
 /-! ### script → Go -/
 
@@ -212,6 +220,138 @@ theorem C17_method_path (pr : Prim) (tin : List InArm) (tout : List OutArm) (sig
     simp [callVia, h]
   · simp [callVia]
 
+
+/-! ### many registrations, one process: the outcome of a call does not depend on its history -/
+
+/-- **History independence.** After ANY history of registrations and calls (any other struct types
+and functions registered before or after, with methods of the same name and other signatures; any
+earlier calls, of this callee or others, succeeding or refused) a call of a registered callee is
+answered by `Cfg.own`: a function of the callee's own signature and code and of the arguments only. -/
+theorem C17_history_independent (cfg : Cfg) (U : Universe) (reg : List Nat) (h : List Op)
+    (c : Callee) (env : Nat) (args : List SVal) (hr : (regAfter reg h).contains c.owner = true) :
+    (runPlain cfg U reg (h ++ [.call c env args])).getLast? = some (some (cfg.own (U c) env args)) := by
+  rw [runPlain_append]
+  have hm : c.owner ∈ regAfter reg h := by simpa using hr
+  simp [runPlain, hm]
+
+/-- the same, as an equation between two worlds: different Go universes that agree on this callee,
+different earlier registrations, different earlier calls — same answer -/
+theorem C17_outcome_depends_on_callee_only (cfg : Cfg) (U U' : Universe) (reg reg' : List Nat)
+    (h h' : List Op) (c : Callee) (env : Nat) (args : List SVal) (hU : U c = U' c)
+    (hr : (regAfter reg h).contains c.owner = true) (hr' : (regAfter reg' h').contains c.owner = true) :
+    (runPlain cfg U reg (h ++ [.call c env args])).getLast?
+      = (runPlain cfg U' reg' (h' ++ [.call c env args])).getLast? := by
+  rw [C17_history_independent cfg U reg h c env args hr,
+      C17_history_independent cfg U' reg' h' c env args hr', hU]
+
+/-- `Cfg.own` never panics (the single-call theorems lifted to both wrapper families) -/
+theorem C17_own_no_panic (cfg : Cfg)
+    (hin : tableExact cfg.tin = true) (hout : outTableExact cfg.tout = true)
+    (hinM : tableExact cfg.tinM = true) (houtM : outTableExact cfg.toutM = true)
+    (e : Entry) (env : Nat) (hb : bodyRespects e.sig (e.body env)) (args : List SVal) :
+    (cfg.own e env args).result.isPanic = false := by
+  unfold Cfg.own
+  cases e.path with
+  | fn =>
+    simp only [callVia]
+    exact C17_no_panic cfg.pr _ _ hin hout e.sig _ hb args
+  | method =>
+    simp only [callVia]
+    split
+    · rfl
+    · exact C17_no_panic cfg.pr _ _ hinM houtM e.sig _ hb args
+
+/-- **No call of any history crashes the interpreter**: whatever was registered and called before. -/
+theorem C17_registry_no_panic (cfg : Cfg)
+    (hin : tableExact cfg.tin = true) (hout : outTableExact cfg.tout = true)
+    (hinM : tableExact cfg.tinM = true) (houtM : outTableExact cfg.toutM = true)
+    (U : Universe) (hb : ∀ c env, bodyRespects (U c).sig ((U c).body env))
+    (ops : List Op) (reg : List Nat) :
+    ∀ tr, some tr ∈ runPlain cfg U reg ops → tr.result.isPanic = false := by
+  induction ops generalizing reg with
+  | nil => intro tr h; simp [runPlain] at h
+  | cons op ops ih =>
+    intro tr h
+    cases op with
+    | register o =>
+      simp only [runPlain, List.mem_cons] at h
+      rcases h with h | h
+      · cases h
+      · exact ih _ tr h
+    | call c env args =>
+      simp only [runPlain, List.mem_cons] at h
+      rcases h with h | h
+      · split at h
+        · cases h
+          exact C17_own_no_panic cfg hin hout hinM houtM (U c) env (hb c env) args
+        · cases h
+      · exact ih _ tr h
+
+/-- **In, exact, after any history**: arguments that denote at the callee's own parameter types reach
+the Go code as exactly the denoted values — whatever other callees of the same name exist. -/
+theorem C17_registry_in_exact (cfg : Cfg)
+    (hin : tableExact cfg.tin = true) (hinM : tableExact cfg.tinM = true)
+    (U : Universe) (reg : List Nat) (h : List Op) (c : Callee) (env : Nat) (args : List SVal)
+    (gs : List GoVal) (hr : (regAfter reg h).contains c.owner = true)
+    (hs : ∀ t ∈ (U c).sig.params, supported.contains t.kind = true)
+    (hd : denoteAll (U c).sig.params args = some gs) :
+    ∃ tr, (runPlain cfg U reg (h ++ [.call c env args])).getLast? = some (some tr) ∧ tr.received = some gs := by
+  refine ⟨_, C17_history_independent cfg U reg h c env args hr, ?_⟩
+  have hlen : ∀ (ps : List GoType) (as : List SVal) (gs : List GoVal), denoteAll ps as = some gs → ps.length = as.length := by
+    intro ps
+    induction ps with
+    | nil => intro as gs h; cases as <;> simp [denoteAll] at h ⊢
+    | cons t ts ih =>
+      intro as gs h
+      cases as with
+      | nil => simp [denoteAll] at h
+      | cons a as =>
+        simp only [denoteAll] at h
+        split at h
+        · rename_i g gs' _ h2
+          simp [ih as gs' h2]
+        · cases h
+  have hl := hlen _ _ _ hd
+  unfold Cfg.own
+  cases (U c).path with
+  | fn =>
+    simp only [callVia]
+    exact C17_call_in_exact cfg.pr _ _ hin _ _ args gs hs hd
+  | method =>
+    have : ¬ args.length < (U c).sig.params.length := by omega
+    simp only [callVia, this]
+    simpa using C17_call_in_exact cfg.pr _ _ hinM _ _ args gs hs hd
+
+/-- **A memo whose key determines its datum is invisible.** Put a table in front of the parameter
+list (`GetParams` answered from a table that outlives the call): if the table is keyed by
+(Go type, method) — or by the Go type alone while the Go type alone determines the list — every
+call of every history is answered exactly as without the table. -/
+theorem C17_sound_memo_transparent (cfg : Cfg) (U : Universe) (m : MemoFact) (hs : m.sound = true)
+    (hU : m.datum = .perOwner → ∀ c c' : Callee, c.owner = c'.owner → (U c).sig.params = (U c').sig.params)
+    (reg : List Nat) (ops : List Op) :
+    runMemo cfg U m.keyBy.key reg [] ops = runPlain cfg U reg ops := by
+  apply runMemo_eq_runPlain cfg U _ _ ops reg [] (memoInv_nil U _)
+  intro c c' hk
+  unfold MemoFact.sound at hs
+  cases hkb : m.keyBy <;> cases hd : m.datum <;> simp [hkb, hd] at hs
+  · -- callee, perCallee
+    simp only [hkb, KeyBy.key, Prod.mk.injEq] at hk
+    have : c = c' := by cases c; cases c'; simp_all
+    rw [this]
+  · simp only [hkb, KeyBy.key, Prod.mk.injEq] at hk
+    have : c = c' := by cases c; cases c'; simp_all
+    rw [this]
+  · -- owner, perOwner
+    simp only [hkb, KeyBy.key, Prod.mk.injEq] at hk
+    exact hU hd c c' hk.1
+
+/-- the tables the source has now (obligation `memos_sound`) are invisible -/
+theorem C17_memos_transparent_now (cfg : Cfg) (U : Universe) (m : MemoFact) (hm : m ∈ memos)
+    (hU : m.datum = .perOwner → ∀ c c' : Callee, c.owner = c'.owner → (U c).sig.params = (U c').sig.params)
+    (reg : List Nat) (ops : List Op) :
+    runMemo cfg U m.keyBy.key reg [] ops = runPlain cfg U reg ops :=
+  C17_sound_memo_transparent cfg U m (List.all_eq_true.mp memos_sound m hm) hU reg ops
+
 /-! ### the generic converter -/
 
 /-- **Generic converter, exact.** `utils.Convert[T]` / `utils.ConvertFromIndex[T]` for a predeclared
@@ -278,6 +418,31 @@ theorem C17_pinned_generic_counterexample :
     convertValue nullPrim { gen with fromInt := pinnedGenFromInt } ⟨.int8, 0⟩ (.int 300)
       = .ok ⟨⟨.int8, 0⟩, .int 44⟩ := by decide
 
+
+/-! ### a parameter-list memo keyed by the bare method name (negation witness, replayed by the
+harness as `hist:*` on a tree that has one) -/
+
+def nowCfg (pr : Prim) : Cfg := ⟨pr, table, outTable, tableMethod, outTableMethod⟩
+
+/-- `Inventory.Put(string) string` (owner 1) and `Ledger.Put(string, int64, float64) int64` (owner 2) -/
+def demoU : Universe := fun c =>
+  if c.owner == 1 then ⟨.method, ⟨[⟨.string, 0⟩], [⟨.string, 0⟩]⟩, fun _ gs => gs.take 1⟩
+  else ⟨.method, ⟨[⟨.string, 0⟩, ⟨.int64, 0⟩, ⟨.float64, 0⟩], [⟨.int64, 0⟩]⟩, fun _ gs => (gs.drop 1).take 1⟩
+
+def demoHist : List Op :=
+  [.register 1, .register 2, .call ⟨1, 7⟩ 0 [.str (.lit [98])],
+   .call ⟨2, 7⟩ 0 [.str (.lit [97]), .int 9223372036854775807, .float 0x8000000000000000]]
+
+/-- keyed by the method name, the second `Put` walks the first one's one-element list and
+`reflect.Value.Call` panics; without the memo both calls go through -/
+theorem C17_name_keyed_memo_counterexample :
+    ¬ (∀ (U : Universe) (reg : List Nat) (ops : List Op),
+        runMemo (nowCfg nullPrim) U KeyBy.meth.key reg [] ops = runPlain (nowCfg nullPrim) U reg ops) := by
+  intro h
+  have := congrArg (List.map (fun t : Option Trace => t.map (fun tr => tr.result.isPanic))) (h demoU [] demoHist)
+  revert this
+  decide
+
 /-! ### non-vacuity -/
 
 -- a three-parameter signature with a defined int64 type, a string and a float64; all hypotheses of
@@ -310,5 +475,26 @@ example : convertValue nullPrim gen ⟨.uint16, 0⟩ (.int 65535) = .ok ⟨⟨.u
 example : convertValue nullPrim gen ⟨.uint16, 0⟩ (.int 65536) = .throw .outOfRange := by decide
 example : convertValue nullPrim gen ⟨.uint64, 0⟩ (.int (-1)) = .throw .outOfRange := by decide
 example : convertFromIndex nullPrim gen GoType.duration (.int 1500) = .ok ⟨GoType.duration, .int 1500⟩ := by decide
+
+
+-- a history: two struct types whose `Put` differ in arity, called in both orders; every answer is the
+-- callee's own and nothing panics
+example : (runPlain (nowCfg nullPrim) demoU [] (demoHist ++ [.call ⟨1, 7⟩ 1 [.str (.lit [99])]])).map
+      (fun t => t.map (fun tr => tr.result))
+    = [none, none, some (.ok (some (.str (.lit [98])))), some (.ok (some (.int 9223372036854775807))),
+       some (.ok (some (.str (.lit [99]))))] := by decide
+
+-- the hypotheses of `C17_history_independent` / `C17_registry_in_exact` are satisfiable
+example : (regAfter [] demoHist).contains (Callee.mk 2 7).owner = true := by decide
+example : denoteAll (demoU ⟨2, 7⟩).sig.params [.str (.lit [97]), .int 5, .float 0]
+    = some [⟨⟨.string, 0⟩, .str (.lit [97])⟩, ⟨⟨.int64, 0⟩, .int 5⟩, ⟨⟨.float64, 0⟩, .flt 0⟩] := by decide
+
+-- a sound memo (keyed by callee) on the same history answers like the plain code; the name-keyed one panics
+example : (runMemo (nowCfg nullPrim) demoU KeyBy.callee.key [] [] demoHist).map (fun t => t.map (fun tr => tr.result.isPanic))
+    = [none, none, some false, some false] := by decide
+example : (runMemo (nowCfg nullPrim) demoU KeyBy.meth.key [] [] demoHist).map (fun t => t.map (fun tr => tr.result.isPanic))
+    = [none, none, some false, some true] := by decide
+example : memosSound [⟨"reflectMethodParams.Store(rm.name, …)", .meth, .perCallee⟩] = false := by decide
+example : memosSound [⟨"ctorParams.Store(rc.instanceType, …)", .owner, .perOwner⟩] = true := by decide
 
 end C17
